@@ -4,9 +4,10 @@ so every signature has to be on record before any body is analysed)."""
 import re, os
 from tools import cxx2c
 from tools.cxx2c import Lower, Unsupported, kids, qt, qt_sugar, strip, strip_parens, callee_name, norm_type, walk
+from tools.cxx2c import REPO as _REPO
 
 NAME = 'SIGS'
-SRC = '/repo/src/bloch/compiler/semantics/semantic_analyser.cpp'
+SRC = _REPO + '/src/bloch/compiler/semantics/semantic_analyser.cpp'
 NAMESPACE = 'bloch::compiler'
 FUNCS = []
 AST_FILTER = ['SemanticAnalyser::analyse']
